@@ -1,1 +1,3 @@
 //! Code shared by the per-property binaries of this crate (src/bin/cNN.rs).
+
+pub mod mk;
